@@ -1,6 +1,7 @@
 package shard
 
 import (
+	"math"
 	"strings"
 
 	"github.com/google/uuid"
@@ -181,5 +182,77 @@ func VerifFiltersAfterHistory() {
 		qb := models.Query{Property: "tag", String: &models.SearchStringOptions{Value: "red", Operator: models.OperatorEquals}}
 		checkFilter(s, "and", models.Query{Property: "_and", And: []models.Query{qa, qb}}, ids, and)
 		checkFilter(s, "or", models.Query{Property: "_or", Or: []models.Query{qa, qb}}, ids, or)
+	}
+}
+
+// ---- C02 at the shard API, string-array and float fields through the index dispatcher: a point
+// is inserted with a label list and a score, updated to another list / score (lists that differ
+// only in how their words are split among the elements, scores including both zeros), and the
+// filters answer for the current value.
+var verifLabelLists = [][]string{{"new york"}, {"new", "york"}, {"york"}, {"york", "new"}}
+
+func VerifArrayAndFloatFiltersAfterUpdate() {
+	schema := models.IndexSchema{
+		"labels": {Type: models.IndexTypeStringArray, StringArray: &models.IndexStringArrayParameters{IndexStringParameters: models.IndexStringParameters{CaseSensitive: true}}},
+		"score":  {Type: models.IndexTypeFloat},
+	}
+	s, _ := verifShard(schema)
+	id := uuid.UUID{9}
+	scores := []float64{0, math.Copysign(0, -1), 1.5, -2}
+	l0 := verifLabelLists[nondetIntRange(0, len(verifLabelLists)-1)]
+	s0 := scores[nondetIntRange(0, len(scores)-1)]
+	toAny := func(l []string) []any {
+		a := make([]any, len(l))
+		for i, w := range l {
+			a[i] = w
+		}
+		return a
+	}
+	vassume(s.InsertPoints([]models.Point{{Id: id, Data: vdoc(map[string]any{"labels": toAny(l0), "score": s0})}}) == nil)
+	cur, curScore := l0, s0
+	if nondetBool() {
+		cur = verifLabelLists[nondetIntRange(0, len(verifLabelLists)-1)]
+		curScore = scores[nondetIntRange(0, len(scores)-1)]
+		updated, err := s.UpdatePoints([]models.Point{{Id: id, Data: vdoc(map[string]any{"labels": toAny(cur), "score": curScore})}})
+		vassert("update-ok", err == nil && len(updated) == 1)
+	}
+	vcover("reached")
+	has := func(w string) bool {
+		for _, x := range cur {
+			if x == w {
+				return true
+			}
+		}
+		return false
+	}
+	for _, q := range [][]string{{"new york"}, {"new"}, {"york"}, {"new", "york"}} {
+		all, any := true, false
+		for _, w := range q {
+			if has(w) {
+				any = true
+			} else {
+				all = false
+			}
+		}
+		for _, op := range []string{models.OperatorContainsAll, models.OperatorContainsAny} {
+			want := (op == models.OperatorContainsAll && all) || (op == models.OperatorContainsAny && any)
+			checkFilter(s, "labels-"+op, models.Query{Property: "labels", StringArray: &models.SearchStringArrayOptions{Value: q, Operator: op}}, []uuid.UUID{id}, []bool{want})
+		}
+	}
+	for _, qv := range []float64{0, math.Copysign(0, -1), 1.5} {
+		for _, op := range []string{models.OperatorEquals, models.OperatorLessThan, models.OperatorGreaterOrEq, models.OperatorNotEquals} {
+			var want bool
+			switch op {
+			case models.OperatorEquals:
+				want = curScore == qv
+			case models.OperatorLessThan:
+				want = curScore < qv
+			case models.OperatorGreaterOrEq:
+				want = curScore >= qv
+			case models.OperatorNotEquals:
+				want = curScore != qv
+			}
+			checkFilter(s, "score-"+op, models.Query{Property: "score", Float: &models.SearchFloatOptions{Value: qv, Operator: op}}, []uuid.UUID{id}, []bool{want})
+		}
 	}
 }
